@@ -1,7 +1,31 @@
 import H4.Interlace
+import H4.Gen.Fn.Mfgr
 import H4.Driver.Util
 namespace H4.Driver
 open H4.Interlace
+
+/-! `GRIil_convert` as TRANSLATED from the current C text of mfgr.c (`H4.Gen.Fn.Mfgr`, gen/c2lean.py) is run on the same image as the
+    hand-written model: the image is placed at address 0 of a flat memory, the zero-filled output buffer behind it, one guard byte at
+    the end.  When the bytes at the output placement differ from the model's answer, when anything outside that placement changed, when
+    the return value is not SUCCEED or the translated code reports undefined behaviour / fuel exhaustion, the answer carries a
+    ` GEN=…` suffix, which the comparison with the real library's answer reports as a DIFF.  This validates the translator itself
+    by differential testing against the compiled C. -/
+namespace GenIl
+open H4.Gen.Fn.Mfgr
+
+def bytesI (l : List UInt8) : List Int := l.map fun b => (b.toNat : Int)
+def unbytes (l : List Int) : List UInt8 := l.map fun x => UInt8.ofNat x.toNat
+
+def conv (a b : Il) (w h nc esz : Nat) (img : List UInt8) (model : String) : String :=
+  let n := w * h * nc * esz
+  let mem := bytesI (img ++ List.replicate n 0 ++ [0xA5])
+  let s := GRIil_convert (h + w + nc) 0 mem a.code n b.code [(w : Int), (h : Int)] nc 0 esz
+  if s.ub then s!"{model} GEN=ub" else if s.oof then s!"{model} GEN=oof" else
+  if s.ret != 0 then s!"{model} GEN=ret{s.ret}" else
+  let out := toHex (unbytes ((s.mem.drop n).take n))
+  if out != model then s!"{model} GEN={out}" else
+  if s.mem.take n != mem.take n || s.mem.drop (2 * n) != mem.drop (2 * n) then s!"{model} GEN=frame" else model
+end GenIl
 
 /-- engine `il` (stateless): `conv <a> <b> <W> <H> <ncomp> <esz> <hex in>` => content of the (zero-filled) output buffer -/
 def stepIl (args : List String) : String :=
@@ -9,7 +33,7 @@ def stepIl (args : List String) : String :=
   | ["conv", a, b, w, h, nc, esz, d] =>
     match parseNat a >>= Il.ofCode, parseNat b >>= Il.ofCode, parseNat w, parseNat h, parseNat nc, parseNat esz, parseHex d with
     | some a, some b, some w, some h, some nc, some esz, some bs =>
-      toHex (convert a b w h nc esz bs (List.replicate (w * h * nc * esz) 0))
+      GenIl.conv a b w h nc esz bs (toHex (convert a b w h nc esz bs (List.replicate (w * h * nc * esz) 0)))
     | _, _, _, _, _, _, _ => "bad-op"
   | _ => "bad-op"
 
